@@ -8,6 +8,7 @@ import (
 	"math/rand/v2"
 	"sync"
 	"time"
+	"verifharness/props/c04"
 
 	"github.com/mycoria/mycoria/config"
 	"github.com/mycoria/mycoria/frame"
@@ -564,6 +565,10 @@ func genPlans(r *rand.Rand, quick bool) []plan {
 
 func run(c *core.Ctx) {
 	res := c.Res
+	// links that come up while another connection of the same peer is being set up (shared key-exchange state):
+	// whatever such a link sends must be sealed like on any other link
+	c04.DoubleDial(res, core.RNG("c05/doubledial"))
+	res.Require(res.Counter("double_dial_second_connection_refused")+res.Counter("double_dial_second_link_sealed") >= 1 || res.ViolationCount() > 0, "double-dial scenario never reached its decisive step")
 	rid := core.RNG("c05/ids")
 	idA, idB := env.NewIdentity(rid, nil), env.NewIdentity(rid, nil)
 	plans := genPlans(core.RNG("c05/plans"), c.Tier == core.Quick)
